@@ -469,7 +469,10 @@ type TvGen struct {
 	// ModeCounter makes the flag field of the *root* constructor walk through all combinations of
 	// its used bits: combination number = ModeCounter.
 	ModeCounter int
-	depth       int
+	// VecLen forces the length of the vector in field "ctor.field" (long-vector classes); its elements are
+	// generated two levels deeper, i.e. with short strings and at most one nested element
+	VecLen map[string]int
+	depth  int
 }
 
 var tvEdgeInt = []string{"0", "1", "-1", "2147483647", "-2147483648", "255", "256", "-256", "16777216"}
@@ -618,6 +621,16 @@ func (g *TvGen) record(s *TvSchema, d *TvDecl) any {
 				out[f.Name] = strconv.FormatUint(uint64(m), 10)
 				continue
 			}
+		}
+		if n, ok := g.VecLen[d.Ctor+"."+f.Name]; ok && f.Ty.Vector != nil {
+			g.depth += 2
+			items := make([]any, n)
+			for i := range items {
+				items[i] = g.Value(s, *f.Ty.Vector)
+			}
+			g.depth -= 2
+			out[f.Name] = items
+			continue
 		}
 		out[f.Name] = g.Value(s, f.Ty)
 	}
